@@ -476,3 +476,23 @@ def local_memo_rule(an: Analysis, rep, rule: str, entries):
                         f"call with the same key and a different {missing[0]} gets the first result (e.g. two relative jumps with the same operand at different offsets get one target)",
                         config=entry)
     rep.add(rule, "local memos examined", True, "code_data/", f"{n} dict-memoised call(s) in the closures of {list(entries)}", nontrivial=False)
+
+
+def assert_guard_rule(an: Analysis, rep, rule: str, entries):
+    """A check that keeps invalid input from being turned into something else must not be an `assert` statement: under `python -O`
+    (PYTHONOPTIMIZE) assert statements are not compiled, the guard is gone and the call goes on silently."""
+    rep.rule(rule, "no guard of the API closures is an assert statement (they vanish under python -O)", 0)
+    n = 0
+    seen = set()
+    for entry in entries:
+        for f in an.closure(entry):
+            if f.qual in seen:
+                continue
+            seen.add(f.qual)
+            for st in ast.walk(f.node):
+                if isinstance(st, ast.Assert):
+                    n += 1
+                    rep.add(rule, f"{f.qual}::{norm_src(st.test)[:60]}", False, loc(f.module, st),
+                            f"`{norm_src(st)[:80]}` is the only thing that rejects this input, and it is an assert statement: under `python -O` it is not executed, the call "
+                            f"continues and returns data / a code object that silently differs from its input")
+    rep.add(rule, "assert statements in the API closures", True, "code_data/", f"{n} assert statement(s) in the closures of {list(entries)}", nontrivial=False)
